@@ -399,4 +399,759 @@ Proof.
       eapply moved_trans; [exact (moved_adv _ _ _ _ H2)|exact Hm'].
 Qed.
 
+Lemma body_len pre2 pl items : forall pre, (length items + 1 <= length (body_sh pre2 pl pre items))%nat.
+Proof.
+  induction items as [|x xs IH]; intros pre; cbn [body_sh]; rewrite !app_length; cbn [length]; [lia|].
+  destruct xs as [|y ys]; [rewrite app_length; cbn [length]; lia|]. cbn [length]. specialize (IH pre2). cbn [length] in IH. lia.
+Qed.
+
+Definition nc_sh (l : list sh) : bool := forallb (fun s => negb (tkind_eqb (fst s) CONSTRAINT)) l.
+Lemma skip_nc l : skip_sh l = true -> nc_sh l = true.
+Proof.
+  unfold skip_sh, nc_sh. induction l as [|s l IH]; [reflexivity|]. cbn [forallb]. intros H. apply andb_prop in H. destruct H as [H1 H2].
+  rewrite (IH H2), Bool.andb_true_r. destruct (fst s); try discriminate H1; reflexivity.
+Qed.
+Lemma vsh_nc v : negb (tkind_eqb (fst (vsh v)) CONSTRAINT) = true.
+Proof. unfold vsh. destruct (sval_of v) as [[| | |]|]; reflexivity. Qed.
+Lemma nc_app a b : nc_sh (a ++ b) = nc_sh a && nc_sh b.
+Proof. apply forallb_app. Qed.
+Lemma nc_cons s l : nc_sh (s :: l) = negb (tkind_eqb (fst s) CONSTRAINT) && nc_sh l.
+Proof. reflexivity. Qed.
+Lemma body_nc pre2 pl : skip_sh pre2 = true -> skip_sh pl = true ->
+  forall items pre, skip_sh pre = true -> nc_sh (body_sh pre2 pl pre items) = true.
+Proof.
+  intros H2 Hl. induction items as [|x xs IH]; intros pre Hp; cbn [body_sh]; rewrite !nc_app.
+  - rewrite (skip_nc _ Hp). reflexivity.
+  - rewrite (skip_nc _ Hp), nc_cons, vsh_nc. cbn [andb nc_sh forallb].
+    destruct xs as [|y ys]; [rewrite nc_app, (skip_nc _ Hl); reflexivity|]. rewrite nc_cons, (IH pre2 H2). reflexivity.
+Qed.
+Lemma no_constraint ts l : Forall2 tmatch ts l -> nc_sh l = true -> existsb (fun t => tkind_eqb (tk t) CONSTRAINT) ts = false.
+Proof.
+  induction 1 as [|t s ts l [Hk _] _ IH]; intros Hs; [reflexivity|].
+  cbn [nc_sh forallb] in Hs. apply andb_prop in Hs. destruct Hs as [H1 H2]. cbn [existsb]. rewrite (IH H2), Hk.
+  apply Bool.negb_true_iff in H1. rewrite H1. reflexivity.
+Qed.
+
+Lemma val_sh_list D items :
+  exists p2 pl p, skip_sh p2 = true /\ skip_sh pl = true /\ skip_sh p = true /\
+                  val_sh ml D (VList items) = (LIST_START, None) :: body_sh p2 pl p items.
+Proof.
+  destruct items as [|x xs].
+  - exists [], [], []. repeat split.
+  - cbn [val_sh]. destruct (ml (x :: xs)).
+    + exists (nl_sh ++ indent_sh (S D)), (nl_sh ++ indent_sh D), (nl_sh ++ indent_sh (S D)).
+      rewrite !skip_sh_app, !skip_indent. repeat split.
+    + exists [], [], []. repeat split.
+Qed.
+
+Definition num_ok_val (v : value) : Prop := match v with VList items => Forall num_ok_v items | _ => num_ok_v v end.
+Definition after_val (k : tkind) : bool := kin k [NEWLINE; COMMENT].
+
+Lemma set_depth_toks d st : ptoks (set_depth d st) = ptoks st.
+Proof. reflexivity. Qed.
+
+Lemma pv_cval v D f st ts nt r :
+  cval v = true -> num_ok_val v -> (length ts + 3 <= f)%nat ->
+  Forall2 tmatch ts (val_sh ml D v) -> ptoks st = ts ++ nt :: r -> after_val (tk nt) = true -> pbdepth st = 0 ->
+  exists st', pv f st = POk v st' /\ ptoks st' = nt :: r /\ moved (length ts) st st'.
+Proof.
+  intros Hc Hnum Hf Hts Hst Hnt Hdep.
+  assert (Hnt' : after_scalar (tk nt) = true) by (destruct (tk nt); try discriminate Hnt; reflexivity).
+  assert (Hscal : forall sv, sval_of v = Some sv -> val_sh ml D v = [vsh v] -> num_ok_v v ->
+                  exists st', pv f st = POk v st' /\ ptoks st' = nt :: r /\ moved (length ts) st st').
+  { intros sv Esv Esh Hn. rewrite Esh, (vsh_sval _ _ Esv) in Hts. inversion Hts as [|t ? ? ? Ht Hnil]; subst. inversion Hnil; subst.
+    cbn [app] in Hst. destruct f as [|f]; [cbn in Hf; lia|].
+    unfold TokRound.num_ok_v in Hn. rewrite Esv in Hn.
+    rewrite (pv_scalar2 _ _ _ _ _ sv Hst Ht Hnt' Hn), (sval_of_val _ _ Esv).
+    exists (adv st). split; [reflexivity|]. split; [exact (adv_toks _ _ _ _ Hst)|exact (moved_adv _ _ _ _ Hst)]. }
+  destruct v as [|b|isf c|s|items| | | |]; cbn [cval is_scalar sval_of] in Hc; try discriminate Hc;
+    try (eapply Hscal; [reflexivity|reflexivity|exact Hnum]).
+  clear Hscal. cbn [num_ok_val] in Hnum.
+  destruct (val_sh_list D items) as (p2 & pl & p & Hp2 & Hpl & Hp & Esh). rewrite Esh in Hts.
+  inversion Hts as [|tL ? tsb ? [HLk _] Hb]; subst. cbn [fst] in HLk. rewrite <- app_comm_cons in Hst.
+  pose proof (F2_length _ _ _ Hb) as Hlen. pose proof (body_len p2 pl items p) as Hbl.
+  cbn [length] in Hf. destruct f as [|[|f]]; try lia.
+  rewrite pv_list_eq; [|unfold ck; rewrite (cur_hd _ _ _ Hst); exact HLk].
+  rewrite plist_eq. cbv zeta. unfold expect. is_step Hst HLk. cbn [bind].
+  assert (Hne : exists t1 r1, tsb ++ nt :: r = t1 :: r1) by (destruct tsb; cbn [app]; eauto).
+  destruct Hne as (t1 & r1 & E1). rewrite E1 in Hst. pose proof (adv_toks _ _ _ _ Hst) as H1. rewrite <- E1 in H1.
+  rewrite adv_depth, Hdep.
+  change (max_nesting <=? 0 + 1) with false. change (nesting_threshold <=? 0 + 1) with false. cbv iota. cbn [andb].
+  destruct (plloop_body p2 pl Hp2 Hpl items p f [] (set_depth (0 + 1) (adv st)) tsb (nt :: r) Hp Hc Hnum) as (st4 & tE & ts0 & Hl & Ets & HEk & Hp4 & Hm4);
+    [unfold sh in *; lia|exact Hb|discriminate|rewrite set_depth_toks; exact H1|].
+  rewrite Hl. cbn [bind rev app]. is_step Hp4 HEk. cbn [bind].
+  pose proof (adv_toks _ _ _ _ Hp4) as H5.
+  destruct Hm4 as (Hw4 & Hd4 & Hpos4). cbn [set_depth pwarns pbdepth ppos] in Hw4, Hd4, Hpos4.
+  pose proof (moved_adv _ _ _ _ Hst) as (Hw1 & Hd1 & Hpos1).
+  pose proof (moved_adv _ _ _ _ Hp4) as (Hw5 & Hd5 & Hpos5).
+  assert (Hslice : firstn (N.to_nat (ppos (set_depth (pbdepth st4 - 1) (adv st4)) - ppos st)) (ptoks st) = tL :: tsb).
+  { rewrite Hst. cbn [set_depth ppos]. rewrite Hpos5, Hpos4, Hpos1.
+    replace (N.to_nat (ppos st + N.of_nat 1 + N.of_nat (length ts0) + N.of_nat 1 - ppos st)) with (length (tL :: tsb)) by (subst tsb; cbn [length]; rewrite app_length; cbn [length]; lia).
+    rewrite <- E1. rewrite app_comm_cons. rewrite firstn_app, Nat.sub_diag, firstn_all. cbn [firstn]. apply app_nil_r. }
+  rewrite Hslice.
+  assert (Hnc : try_holographic holo_ok (tL :: tsb) = None).
+  { unfold try_holographic. rewrite (no_constraint (tL :: tsb) ((LIST_START, None) :: body_sh p2 pl p items)); [reflexivity|exact Hts|].
+    cbn [nc_sh forallb]. apply (body_nc p2 pl Hp2 Hpl items p Hp). }
+  rewrite Hnc.
+  eexists. split; [reflexivity|]. split; [rewrite set_depth_toks; exact H5|].
+  unfold moved. cbn [set_depth pwarns pbdepth ppos]. rewrite Hw5, Hw4, Hw1. split; [reflexivity|].
+  rewrite Hd4, Hdep. split; [reflexivity|]. rewrite Hpos5, Hpos4, Hpos1. subst tsb. cbn [length]. rewrite app_length. cbn [length]. lia.
+Qed.
+
+(* ---- assignments ---------------------------------------------------------------------------------------------------- *)
+Lemma psec_assign_eq f leading st :
+  is SECTION st = false -> is IDENTIFIER st = true -> is LIST_START (adv st) = false ->
+  is ASSIGN (adv st) = true -> is FLOW (adv st) = false ->
+  psec (S f) leading st =
+        let it := cur st in
+        let key := text_of it in
+        let st4 := adv (adv st) in
+        let quoted := is STRING st4 in
+        do (v, st5) <- pv (fuel_of st4 + fuel_of st4 + fuel_of st4) st4;
+        let st6 := match is_vstr v with
+                   | Some s => if str_in key pattern_keys && negb quoted
+                               then warn (mkW 9 (tline it) (tcol it) key s [] []) st5 else st5
+                   | None => st5
+                   end in
+        let '(trailing, st7) := if is COMMENT st6 then (Some (text_of (cur st6)), adv st6) else (None, st6) in
+        POk (Some (NAssign key v leading trailing)) st7.
+Proof. intros H1 H2 H3 H4 H5. cbn [parse_section]. rewrite H1, H2, H3. cbn [negb]. rewrite H4, H5. reflexivity. Qed.
+
+Lemma psec_assign2 f leading st ts rest k v l0 trl D :
+  cval v = true -> num_ok_val v -> opt_ne trl = true ->
+  Forall2 tmatch ts (main_sh ml idnum D (NAssign k v l0 trl)) -> ptoks st = ts ++ rest -> pbdepth st = 0 ->
+  exists st' tn, psec (S f) leading st = POk (Some (NAssign k v leading trl)) st' /\ ptoks st' = tn :: rest /\
+                 tk tn = NEWLINE /\ sext st st'.
+Proof.
+  intros Hc Hnum Htr Hts Hst Hdep.
+  cbn [main_sh] in Hts. cbn [app] in Hts.
+  inversion Hts as [|ti ? ? ? [Hik Hiv] Hts1]; subst. inversion Hts1 as [|ta ? ts2 ? [Hak _] Hts2]; subst.
+  cbn [fst snd] in Hik, Hiv, Hak.
+  apply Forall2_app_inv_r in Hts2. destruct Hts2 as (tsv & ts3 & Htsv & Hts3 & ->).
+  apply Forall2_app_inv_r in Hts3. destruct Hts3 as (tst & tsn & Htst & Htsn & ->).
+  inversion Htsn as [|tn ? ? ? [Hnk _] Hnil]; subst. inversion Hnil; subst. cbn [fst] in Hnk.
+  rewrite <- !app_comm_cons in Hst. rewrite <- !app_assoc in Hst. cbn [app] in Hst.
+  assert (Hne : exists t1 r1, tsv ++ tst ++ tn :: rest = t1 :: r1) by (destruct tsv; [destruct tst|]; cbn [app]; eauto).
+  destruct Hne as (t1 & r1 & E1). rewrite E1 in Hst.
+  pose proof (adv_toks _ _ _ _ Hst) as H1. pose proof (adv_toks _ _ _ _ H1) as H2. rewrite <- E1 in H2.
+  rewrite psec_assign_eq.
+  2:{ rewrite (is_hd _ _ _ _ Hst), Hik. reflexivity. }
+  2:{ rewrite (is_hd _ _ _ _ Hst), Hik. reflexivity. }
+  2:{ rewrite (is_hd _ _ _ _ H1), Hak. reflexivity. }
+  2:{ rewrite (is_hd _ _ _ _ H1), Hak. reflexivity. }
+  2:{ rewrite (is_hd _ _ _ _ H1), Hak. reflexivity. }
+  cbv zeta. rewrite (cur_hd _ _ _ Hst).
+  assert (Hk : text_of ti = k) by (unfold text_of; rewrite Hiv; reflexivity). rewrite !Hk.
+  assert (Hd2 : pbdepth (adv (adv st)) = 0) by (rewrite !adv_depth; exact Hdep).
+  assert (W2 : sext st (adv (adv st))) by sadv.
+  (* what follows the value *)
+  assert (Hnt : exists nt r2, tst ++ tn :: rest = nt :: r2 /\ after_val (tk nt) = true).
+  { destruct trl as [c|]; cbn [trail_sh] in Htst.
+    - inversion Htst as [|tc ? ? ? [Hck _] Hnil']; subst. inversion Hnil'; subst. exists tc, (tn :: rest). split; [reflexivity|]. rewrite Hck. reflexivity.
+    - inversion Htst; subst. exists tn, rest. split; [reflexivity|]. rewrite Hnk. reflexivity. }
+  destruct Hnt as (nt & r2 & E2 & Hnt). rewrite E2 in H2.
+  destruct (pv_cval v D (fuel_of (adv (adv st)) + fuel_of (adv (adv st)) + fuel_of (adv (adv st)))%nat (adv (adv st)) tsv nt r2 Hc Hnum)
+    as (st5 & Hv & Hp5 & Hm5); [rewrite (fuel_of_toks _ _ H2), app_length; lia|exact Htsv|exact H2|exact Hnt|exact Hd2|].
+  rewrite Hv. cbn [bind].
+  set (st6 := match is_vstr v with Some s => _ | None => _ end).
+  assert (H6 : ptoks st6 = nt :: r2).
+  { subst st6. destruct (is_vstr v); [destruct (_ && _)|]; [rewrite warn_toks| |]; exact Hp5. }
+  assert (W6 : sext st st6).
+  { eapply sext_trans; [exact W2|]. eapply sext_trans; [exact (moved_sext _ _ _ Hm5)|].
+    subst st6. destruct (is_vstr v); [destruct (_ && _)|]; try apply sext_refl. apply sext_warn; right; reflexivity. }
+  clearbody st6.
+  destruct trl as [c|]; cbn [trail_sh] in Htst.
+  - inversion Htst as [|tc ? ? ? [Hck Hcv] Hnil']; subst. inversion Hnil'; subst. cbn [fst snd] in Hck, Hcv.
+    cbn [app] in E2. inversion E2; subst nt r2.
+    is_step H6 Hck. rewrite (cur_hd _ _ _ H6).
+    assert (Hc' : text_of tc = c) by (unfold text_of; rewrite Hcv; reflexivity). rewrite Hc'.
+    exists (adv st6), tn. split; [reflexivity|]. split; [exact (adv_toks _ _ _ _ H6)|]. split; [exact Hnk|].
+    eapply sext_trans; [exact W6|apply sext_adv].
+  - inversion Htst; subst. cbn [app] in E2. inversion E2; subst nt r2.
+    is_step H6 Hnk.
+    exists st6, tn. split; [reflexivity|]. split; [exact H6|]. split; [exact Hnk|exact W6].
+Qed.
+
+(* ---- loops: one-step equations ---------------------------------------------------------------------------------------- *)
+Lemma sloop_eq f ci cli pending acc dups st :
+  sloop (S f) ci cli pending acc dups st =
+      let fin (st' : pstate) := POk (rev acc ++ comments_as_nodes pending) st' in
+      if is EOF st || is ENVELOPE_END st then fin st
+      else if is INDENT st then
+        let n := count_of (cur st) in
+        if n <? ci then fin st else sloop f ci n pending acc dups (adv st)
+      else if is COMMENT st then sloop f ci cli (pending ++ [text_of (cur st)]) acc dups (adv st)
+      else if is SECTION st && (cli <? ci) then fin st
+      else if is NEWLINE st then sloop f ci 0 pending acc dups (adv st)
+      else if cli <? ci then fin st
+      else
+        let line := tline (cur st) in
+        do (child, st1) <- psec f pending st;
+        match child with
+        | Some n =>
+            let '(dups', st2) := match node_key_line n line with
+                                 | Some (k, l) => track_dup k l dups st1
+                                 | None => (dups, st1)
+                                 end in
+            sloop f ci 0 [] (n :: acc) dups' st2
+        | None => POk (rev acc) st1
+        end.
+Proof. reflexivity. Qed.
+
+Lemma pmark_eq f st :
+  pmark (S f) st =
+      let st1 := adv st in
+      do (sid, st2) <-
+         (if is NUMBER st1 then
+            match tv (cur st1) with
+            | TVNum raw =>
+                match numcanon raw with
+                | Some (_, c) =>
+                    let st' := adv st1 in
+                    if is IDENTIFIER st' then
+                      match text_of (cur st') with
+                      | [x] => if alpha x then POk (c ++ [x]) (adv st') else POk c st'
+                      | _ => POk c st'
+                      end
+                    else POk c st'
+                | None => POut 5
+                end
+            | _ => POut 5
+            end
+          else if is IDENTIFIER st1 then POk (text_of (cur st1)) (adv st1)
+          else err_at e006p (cur st1));
+      if negb (is ASSIGN st2) then err_at e006p (cur st2)
+      else
+        let st3 := adv st2 in
+        do (name, st4) <-
+           (if is IDENTIFIER st3 then POk (text_of (cur st3)) (adv st3)
+            else if kin (ck st3) [NEWLINE; INDENT; LIST_START] then POk sid st3
+            else err_at e006p (cur st3));
+        do (annot, st5) <- consume_annotation true st4;
+        let st6 := skip_kinds [NEWLINE] (fuel_of st5) st5 in
+        let '(pre, st7) := collect_pre (fuel_of st6) [] st6 in
+        if is INDENT st7 then
+          let ci := count_of (cur st7) in
+          do (children, st8) <- sloop f ci ci pre [] [] (adv st7);
+          POk (NSection sid name annot children []) st8
+        else POk (NSection sid name annot (comments_as_nodes pre) []) st7.
+Proof. reflexivity. Qed.
+
+Lemma psec_section_eq f leading st :
+  is SECTION st = true ->
+  psec (S f) leading st =
+        do (n, st1) <- pmark f st;
+        POk (Some (match n, leading with
+                   | NSection i k a ch _, _ :: _ => NSection i k a ch leading
+                   | x, _ => x
+                   end)) st1.
+Proof. intros H. cbn [parse_section]. rewrite H. reflexivity. Qed.
+
+(* ---- leading comment lines, consumed by the enclosing loop ------------------------------------------------------------- *)
+Lemma lead_sh_cons D c cs : lead_sh D (c :: cs) = indent_sh D ++ [(COMMENT, Some (TVText c)); (NEWLINE, None)] ++ lead_sh D cs.
+Proof. unfold lead_sh. cbn [flat_map]. rewrite <- app_assoc. reflexivity. Qed.
+
+Lemma bloop_lead d cs : forall pending cli f acc dups st ts rest,
+  Forall2 tmatch ts (lead_sh (S d) cs) -> ptoks st = ts ++ rest -> rest <> [] ->
+  exists st' cli', bloop (3 * length cs + f) (ind_count (S d)) cli pending acc dups st =
+                   bloop f (ind_count (S d)) cli' (pending ++ cs) acc dups st' /\ ptoks st' = rest /\ sext st st'.
+Proof.
+  induction cs as [|c cs IH]; intros pending cli f acc dups st ts rest Hts Hst Hr.
+  - inversion Hts; subst. cbn [app] in Hst. exists st, cli. rewrite app_nil_r. split; [reflexivity|]. split; [exact Hst|apply sext_refl].
+  - rewrite lead_sh_cons in Hts. cbn [indent_sh app] in Hts.
+    inversion Hts as [|tI ? ? ? [HIk HIv] Hts1]; subst. inversion Hts1 as [|tC ? ? ? [HCk HCv] Hts2]; subst.
+    inversion Hts2 as [|tN ? ts3 ? [HNk _] Hts3]; subst. cbn [fst snd] in HIk, HIv, HCk, HCv, HNk.
+    rewrite <- !app_comm_cons in Hst.
+    assert (Hne : exists t1 r1, ts3 ++ rest = t1 :: r1) by (destruct rest; [congruence|]; destruct ts3; cbn [app]; eauto).
+    destruct Hne as (t1 & r1 & E1). rewrite E1 in Hst.
+    replace (3 * length (c :: cs) + f)%nat with (S (S (S (3 * length cs + f)))) by (cbn [length]; lia).
+    rewrite bloop_eq. cbv zeta. is_step Hst HIk. rewrite (cur_hd _ _ _ Hst).
+    assert (HIc : count_of tI = ind_count (S d)) by (unfold count_of; rewrite HIv; reflexivity). rewrite !HIc, N.ltb_irrefl.
+    pose proof (adv_toks _ _ _ _ Hst) as H1.
+    rewrite bloop_eq. cbv zeta. is_step H1 HCk. rewrite (cur_hd _ _ _ H1).
+    assert (Hc : text_of tC = c) by (unfold text_of; rewrite HCv; reflexivity). rewrite Hc.
+    pose proof (adv_toks _ _ _ _ H1) as H2.
+    rewrite bloop_eq. cbv zeta. is_step H2 HNk.
+    pose proof (adv_toks _ _ _ _ H2) as H3. rewrite <- E1 in H3.
+    destruct (IH (pending ++ [c]) 0 f acc dups (adv (adv (adv st))) ts3 rest Hts3 H3 Hr) as (st' & cli' & He & Hp & W).
+    exists st', cli'. rewrite He, <- app_assoc. split; [reflexivity|]. split; [exact Hp|].
+    eapply sext_trans; [|exact W]. sadv.
+Qed.
+
+Lemma sloop_lead d cs : forall pending cli f acc dups st ts rest,
+  Forall2 tmatch ts (lead_sh (S d) cs) -> ptoks st = ts ++ rest -> rest <> [] ->
+  exists st' cli', sloop (3 * length cs + f) (ind_count (S d)) cli pending acc dups st =
+                   sloop f (ind_count (S d)) cli' (pending ++ cs) acc dups st' /\ ptoks st' = rest /\ sext st st'.
+Proof.
+  induction cs as [|c cs IH]; intros pending cli f acc dups st ts rest Hts Hst Hr.
+  - inversion Hts; subst. cbn [app] in Hst. exists st, cli. rewrite app_nil_r. split; [reflexivity|]. split; [exact Hst|apply sext_refl].
+  - rewrite lead_sh_cons in Hts. cbn [indent_sh app] in Hts.
+    inversion Hts as [|tI ? ? ? [HIk HIv] Hts1]; subst. inversion Hts1 as [|tC ? ? ? [HCk HCv] Hts2]; subst.
+    inversion Hts2 as [|tN ? ts3 ? [HNk _] Hts3]; subst. cbn [fst snd] in HIk, HIv, HCk, HCv, HNk.
+    rewrite <- !app_comm_cons in Hst.
+    assert (Hne : exists t1 r1, ts3 ++ rest = t1 :: r1) by (destruct rest; [congruence|]; destruct ts3; cbn [app]; eauto).
+    destruct Hne as (t1 & r1 & E1). rewrite E1 in Hst.
+    replace (3 * length (c :: cs) + f)%nat with (S (S (S (3 * length cs + f)))) by (cbn [length]; lia).
+    rewrite sloop_eq. cbv zeta. is_step Hst HIk. rewrite (cur_hd _ _ _ Hst).
+    assert (HIc : count_of tI = ind_count (S d)) by (unfold count_of; rewrite HIv; reflexivity). rewrite !HIc, N.ltb_irrefl.
+    pose proof (adv_toks _ _ _ _ Hst) as H1.
+    rewrite sloop_eq. cbv zeta. is_step H1 HCk. rewrite (cur_hd _ _ _ H1).
+    assert (Hc : text_of tC = c) by (unfold text_of; rewrite HCv; reflexivity). rewrite Hc.
+    pose proof (adv_toks _ _ _ _ H1) as H2.
+    rewrite sloop_eq. cbv zeta. is_step H2 HNk.
+    pose proof (adv_toks _ _ _ _ H2) as H3. rewrite <- E1 in H3.
+    destruct (IH (pending ++ [c]) 0 f acc dups (adv (adv (adv st))) ts3 rest Hts3 H3 Hr) as (st' & cli' & He & Hp & W).
+    exists st', cli'. rewrite He, <- app_assoc. split; [reflexivity|]. split; [exact Hp|].
+    eapply sext_trans; [|exact W]. sadv.
+Qed.
+
+Lemma dloop_lead cs : forall pending f acc dups st ts rest,
+  Forall2 tmatch ts (lead_sh 0 cs) -> ptoks st = ts ++ rest -> rest <> [] ->
+  exists st', dloop (2 * length cs + f) pending acc dups st = dloop f (pending ++ cs) acc dups st' /\ ptoks st' = rest /\ sext st st'.
+Proof.
+  induction cs as [|c cs IH]; intros pending f acc dups st ts rest Hts Hst Hr.
+  - inversion Hts; subst. cbn [app] in Hst. exists st. rewrite app_nil_r. split; [reflexivity|]. split; [exact Hst|apply sext_refl].
+  - rewrite lead_sh_cons in Hts. cbn [indent_sh app] in Hts.
+    inversion Hts as [|tC ? ? ? [HCk HCv] Hts2]; subst.
+    inversion Hts2 as [|tN ? ts3 ? [HNk _] Hts3]; subst. cbn [fst snd] in HCk, HCv, HNk.
+    rewrite <- !app_comm_cons in Hst.
+    assert (Hne : exists t1 r1, ts3 ++ rest = t1 :: r1) by (destruct rest; [congruence|]; destruct ts3; cbn [app]; eauto).
+    destruct Hne as (t1 & r1 & E1). rewrite E1 in Hst.
+    replace (2 * length (c :: cs) + f)%nat with (S (S (2 * length cs + f))) by (cbn [length]; lia).
+    rewrite dloop_eq. is_step Hst HCk. rewrite (cur_hd _ _ _ Hst).
+    assert (Hc : text_of tC = c) by (unfold text_of; rewrite HCv; reflexivity). rewrite Hc.
+    pose proof (adv_toks _ _ _ _ Hst) as H2.
+    rewrite dloop_eq. is_step H2 HNk.
+    pose proof (adv_toks _ _ _ _ H2) as H3. rewrite <- E1 in H3.
+    destruct (IH (pending ++ [c]) f acc dups (adv (adv st)) ts3 rest Hts3 H3 Hr) as (st' & He & Hp & W).
+    exists st'. rewrite He, <- app_assoc. split; [reflexivity|]. split; [exact Hp|].
+    eapply sext_trans; [|exact W]. sadv.
+Qed.
+
+(* ---- oracle side conditions, fuel measure ------------------------------------------------------------------------------- *)
+(* a section id that reaches the parser as a NUMBER token is read back through the number oracle *)
+Definition id_ok (i : str) : Prop := idnum i = true -> exists isf, numcanon i = Some (isf, i).
+Fixpoint nums_ok2 (n : node) : Prop :=
+  match n with
+  | NAssign _ v _ _ => num_ok_val v
+  | NBlock _ _ ch _ => (fix go (l : list node) : Prop := match l with [] => True | c :: r => nums_ok2 c /\ go r end) ch
+  | NSection i _ _ ch _ =>
+      id_ok i /\ (fix go (l : list node) : Prop := match l with [] => True | c :: r => nums_ok2 c /\ go r end) ch
+  | NComment _ => True
+  end.
+Fixpoint nums_ok2_l (l : list node) : Prop := match l with [] => True | c :: r => nums_ok2 c /\ nums_ok2_l r end.
+Lemma nums_ok2_block k t ch l : nums_ok2 (NBlock k t ch l) = nums_ok2_l ch.
+Proof. cbn [nums_ok2]. induction ch as [|c r IH]; [reflexivity|]. cbn [nums_ok2_l]. rewrite <- IH. reflexivity. Qed.
+Lemma nums_ok2_section i k a ch l : nums_ok2 (NSection i k a ch l) = (id_ok i /\ nums_ok2_l ch).
+Proof. reflexivity. Qed.
+
+Fixpoint sz2 (n : node) : nat :=
+  match n with
+  | NBlock _ _ ch _ =>
+      (2 + (fix go (l : list node) : nat :=
+              match l with [] => 1 | c :: r => 3 * length (lead_of c) + 3 + sz2 c + go r end) ch)%nat
+  | NSection _ _ _ ch _ =>
+      (3 + (fix go (l : list node) : nat :=
+              match l with [] => 1 | c :: r => 3 * length (lead_of c) + 3 + sz2 c + go r end) ch)%nat
+  | _ => 1%nat
+  end.
+Fixpoint lsz2 (l : list node) : nat :=
+  match l with [] => 1%nat | c :: r => (3 * length (lead_of c) + 3 + sz2 c + lsz2 r)%nat end.
+Lemma sz2_block k t ch l : sz2 (NBlock k t ch l) = (2 + lsz2 ch)%nat.
+Proof. reflexivity. Qed.
+Lemma sz2_section i k a ch l : sz2 (NSection i k a ch l) = (3 + lsz2 ch)%nat.
+Proof. reflexivity. Qed.
+
+Definition set_lead (n : node) (l : list str) : node :=
+  match n with
+  | NAssign k v _ t => NAssign k v l t
+  | NBlock k t ch _ => NBlock k t ch l
+  | NSection i k a ch _ => NSection i k a ch l
+  | NComment t => NComment t
+  end.
+Lemma set_lead_id n : set_lead n (lead_of n) = n.
+Proof. destruct n; reflexivity. Qed.
+
+(* the statement proved by nested induction: parse_section, started on the node's first own token with the pending
+   comments `leading`, returns the node carrying `leading` *)
+Definition P_node2 (n : node) : Prop :=
+  core2_node n = true -> nums_ok2 n ->
+  forall D f leading st ts rest,
+    (sz2 n <= f)%nat ->
+    Forall2 tmatch ts (main_sh ml idnum D n) ->
+    ptoks st = ts ++ rest -> pbdepth st = 0 ->
+    ends_block (ind_count (S D)) rest ->
+    exists st' tail, psec f leading st = POk (Some (set_lead n leading)) st' /\ ptoks st' = tail ++ rest /\
+                     tail_ok n tail /\ sext st st'.
+
+Lemma node_sh2_first D c : exists body,
+  node_sh2 ml idnum (S D) c = (INDENT, Some (TVCount (ind_count (S D)))) :: body.
+Proof.
+  unfold node_sh2. destruct (lead_of c) as [|x xs].
+  - cbn [lead_sh flat_map indent_sh app]. eexists. reflexivity.
+  - rewrite lead_sh_cons. cbn [indent_sh app]. eexists. reflexivity.
+Qed.
+
+Lemma main_first n D : core2_node n = true ->
+  exists s body, main_sh ml idnum D n = s :: body /\ (fst s = IDENTIFIER \/ fst s = SECTION).
+Proof.
+  destruct n; cbn [core2_node]; try discriminate; intros _; cbn [main_sh app]; eexists; eexists; (split; [reflexivity|]); cbn [fst]; auto.
+Qed.
+
+(* what follows a child at depth S d: the next sibling (its first token is INDENT(2(S d))) or the end of the block *)
+Lemma ends_after_child d cs ts2 rest :
+  Forall2 tmatch ts2 (nodes_sh2 ml idnum (S d) cs) -> ends_block (ind_count (S d)) rest ->
+  ends_block (ind_count (S (S d))) (ts2 ++ rest).
+Proof.
+  intros Hts2 Hend. destruct cs as [|c2 cs'].
+  - inversion Hts2; subst. cbn [app]. eapply (ends_block_mono sp alpha); [|exact Hend]. rewrite (ind_count_S (S d)). lia.
+  - cbn [nodes_sh2 flat_map] in Hts2. apply Forall2_app_inv_r in Hts2. destruct Hts2 as (u1 & u2 & Hu1 & _ & ->).
+    destruct (node_sh2_first d c2) as (body2 & Hsh2). rewrite Hsh2 in Hu1.
+    inversion Hu1 as [|tJ ? ? ? [HJk HJv] _]; subst. cbn [fst snd] in HJk, HJv.
+    cbn [app ends_block]. unfold ends_blockb. rewrite HJk. unfold count_of. rewrite HJv.
+    cbn [tkind_eqb tkind_code N.eqb Pos.eqb orb andb].
+    assert (Hlt : (ind_count (S d) <? ind_count (S (S d))) = true) by (apply N.ltb_lt; rewrite (ind_count_S (S d)); lia).
+    rewrite Hlt. reflexivity.
+Qed.
+
+Lemma sext_depth0 st st' : sext st st' -> pbdepth st = 0 -> pbdepth st' = 0.
+Proof. intros [_ H] H0. congruence. Qed.
+
+Lemma bloop_children2 ch :
+  Forall P_node2 ch -> forallb core2_node ch = true -> nums_ok2_l ch ->
+  forall d f cli acc dups st ts rest,
+    (lsz2 ch <= f)%nat ->
+    Forall2 tmatch ts (nodes_sh2 ml idnum (S d) ch) ->
+    ptoks st = ts ++ rest -> pbdepth st = 0 ->
+    ends_block (ind_count (S d)) rest ->
+    (ch = [] -> cli = 0) ->
+    exists st', bloop f (ind_count (S d)) cli [] acc dups st = POk (rev acc ++ ch) st' /\ ptoks st' = rest /\ sext st st'.
+Proof.
+  induction ch as [|c cs IHl]; intros HP Hcore Hnum d f cli acc dups st ts rest Hf Hts Hst Hdep Hend Hcli.
+  - inversion Hts; subst ts. cbn [app] in Hst. destruct rest as [|t r]; [destruct Hend|].
+    cbn [lsz2] in Hf. destruct f as [|f]; [lia|]. rewrite (Hcli eq_refl).
+    rewrite bloop_eq. cbv zeta. cbn [ends_block] in Hend. unfold ends_blockb in Hend.
+    repeat rewrite (is_hd _ _ _ _ Hst). rewrite (cur_hd _ _ _ Hst).
+    assert (H0 : (0 <? ind_count (S d)) = true) by (apply N.ltb_lt; unfold ind_count; lia).
+    rewrite H0.
+    destruct (tk t); cbn in Hend |- *; rewrite ?app_nil_r; try discriminate Hend;
+      rewrite ?Bool.orb_false_r in Hend; rewrite ?Hend; eexists; (split; [reflexivity|split; [exact Hst|apply sext_refl]]).
+  - inversion HP as [|? ? HPc HPcs]; subst.
+    cbn [forallb] in Hcore. apply andb_prop in Hcore. destruct Hcore as [Hcc Hccs].
+    destruct Hnum as [Hnc Hncs].
+    cbn [nodes_sh2 flat_map] in Hts. apply Forall2_app_inv_r in Hts.
+    destruct Hts as (ts1 & ts2 & Hts1 & Hts2 & ->).
+    unfold node_sh2 in Hts1. apply Forall2_app_inv_r in Hts1. destruct Hts1 as (tl & ts1' & Htl & Hts1' & ->).
+    cbn [indent_sh app] in Hts1'. inversion Hts1' as [|tI ? tm ? [HIk HIv] Htm]; subst. cbn [fst snd] in HIk, HIv.
+    destruct (main_first c (S d) Hcc) as (s0 & body & Emain & Hs0). pose proof Htm as Htm'. rewrite Emain in Htm'.
+    inversion Htm' as [|tb ? tm' ? [Hbk _] _]; subst. clear Htm'.
+    cbn [lsz2] in Hf.
+    replace f with (3 * length (lead_of c) + (f - 3 * length (lead_of c)))%nat by lia.
+    remember (f - 3 * length (lead_of c))%nat as f1 eqn:Ef1.
+    assert (Hf1 : (3 + sz2 c + lsz2 cs <= f1)%nat) by lia. clear Ef1 Hf.
+    rewrite <- !app_assoc in Hst. rewrite <- app_comm_cons in Hst.
+    destruct (bloop_lead d (lead_of c) [] cli f1 acc dups st tl (tI :: (tb :: tm') ++ ts2 ++ rest) Htl Hst) as (sta & cla & Ea & Hpa & Wa);
+      [discriminate|].
+    rewrite Ea. cbn [app] in Hpa |- *. clear Ea.
+    pose proof (sext_depth0 _ _ Wa Hdep) as Hda.
+    (* the INDENT of the header line *)
+    destruct f1 as [|f1]; [lia|]. rewrite bloop_eq. cbv zeta.
+    is_step Hpa HIk. rewrite (cur_hd _ _ _ Hpa).
+    assert (HIc : count_of tI = ind_count (S d)) by (unfold count_of; rewrite HIv; reflexivity). rewrite !HIc. rewrite N.ltb_irrefl.
+    pose proof (adv_toks _ _ _ _ Hpa) as H1.
+    (* the child *)
+    destruct f1 as [|f1]; [lia|].
+    pose proof (ends_after_child d cs ts2 rest Hts2 Hend) as Hend'.
+    assert (Hd1 : pbdepth (adv sta) = 0) by (rewrite adv_depth; exact Hda).
+    destruct (HPc Hcc Hnc (S d) f1 (lead_of c) (adv sta) (tb :: tm') (ts2 ++ rest)) as (st1 & tail & Hp & Hst1 & Htail & W1);
+      [lia|exact Htm|rewrite <- app_comm_cons; exact H1|exact Hd1|exact Hend'|].
+    rewrite set_lead_id in Hp.
+    rewrite bloop_eq. cbv zeta.
+    assert (HK : tkind_eqb (tk tb) EOF = false /\ tkind_eqb (tk tb) ENVELOPE_END = false /\ tkind_eqb (tk tb) INDENT = false /\
+                 tkind_eqb (tk tb) COMMENT = false /\ tkind_eqb (tk tb) NEWLINE = false /\ tkind_eqb (tk tb) FENCE_OPEN = false).
+    { cbn [fst] in Hbk. destruct Hs0 as [E|E]; rewrite E in Hbk; rewrite Hbk; repeat split. }
+    repeat rewrite (is_hd _ _ _ _ H1). destruct HK as (-> & -> & -> & -> & -> & ->). cbn [orb].
+    rewrite N.ltb_irrefl. rewrite Hp. cbn [bind].
+    (* after the child *)
+    set (dl := match node_key_line c (tline (cur (adv sta))) with Some (k, l) => track_dup k l dups st1 | None => (dups, st1) end).
+    assert (Hdl : ptoks (snd dl) = tail ++ ts2 ++ rest).
+    { subst dl. destruct (node_key_line c _) as [[k l]|]; [rewrite track_dup_toks|]; exact Hst1. }
+    assert (Wdl : sext st (snd dl)).
+    { eapply sext_trans; [exact Wa|]. eapply sext_trans; [apply sext_adv|]. eapply sext_trans; [exact W1|].
+      subst dl. destruct (node_key_line c _) as [[k l]|]; [apply sext_track_dup|apply sext_refl]. }
+    destruct dl as [dups' st2] eqn:Edl. cbn [snd] in Hdl, Wdl.
+    pose proof (sext_depth0 _ _ Wdl Hdep) as Hd2.
+    assert (Hrest : exists t0 r0, ts2 ++ rest = t0 :: r0).
+    { destruct rest as [|t0 r0]; [destruct Hend|]. destruct ts2; cbn [app]; eauto. }
+    destruct c as [k v lead tr|k tg chn lead|i k a chn lead|]; cbn [core2_node] in Hcc; try discriminate Hcc.
+    + (* assignment: one more iteration for its NEWLINE *)
+      destruct Htail as (tn & -> & Htn). cbn [app] in Hdl.
+      destruct Hrest as (t0 & r0 & Hr). rewrite Hr in Hdl.
+      destruct f1 as [|f1]; [cbn [sz2] in Hf1; lia|]. rewrite bloop_eq. cbv zeta. is_step Hdl Htn.
+      pose proof (adv_toks _ _ _ _ Hdl) as H2. rewrite <- Hr in H2.
+      destruct (IHl HPcs Hccs Hncs d f1 0 (NAssign k v lead tr :: acc) dups' (adv st2) ts2 rest) as (st' & Hl & Hst' & W');
+        [cbn [sz2] in Hf1; lia|exact Hts2|exact H2|rewrite adv_depth; exact Hd2|exact Hend|reflexivity|].
+      exists st'. split; [|split; [exact Hst'|eapply sext_trans; [exact Wdl|eapply sext_trans; [apply sext_adv|exact W']]]].
+      rewrite Hl. cbn [rev]. rewrite <- app_assoc. reflexivity.
+    + cbn [tail_ok] in Htail. subst tail. cbn [app] in Hdl.
+      destruct (IHl HPcs Hccs Hncs d f1 0 (NBlock k tg chn lead :: acc) dups' st2 ts2 rest) as (st' & Hl & Hst' & W');
+        [lia|exact Hts2|exact Hdl|exact Hd2|exact Hend|reflexivity|].
+      exists st'. split; [|split; [exact Hst'|eapply sext_trans; [exact Wdl|exact W']]].
+      rewrite Hl. cbn [rev]. rewrite <- app_assoc. reflexivity.
+    + cbn [tail_ok] in Htail. subst tail. cbn [app] in Hdl.
+      destruct (IHl HPcs Hccs Hncs d f1 0 (NSection i k a chn lead :: acc) dups' st2 ts2 rest) as (st' & Hl & Hst' & W');
+        [lia|exact Hts2|exact Hdl|exact Hd2|exact Hend|reflexivity|].
+      exists st'. split; [|split; [exact Hst'|eapply sext_trans; [exact Wdl|exact W']]].
+      rewrite Hl. cbn [rev]. rewrite <- app_assoc. reflexivity.
+Qed.
+
+Lemma sloop_children2 ch :
+  Forall P_node2 ch -> forallb core2_node ch = true -> nums_ok2_l ch ->
+  forall d f cli acc dups st ts rest,
+    (lsz2 ch <= f)%nat ->
+    Forall2 tmatch ts (nodes_sh2 ml idnum (S d) ch) ->
+    ptoks st = ts ++ rest -> pbdepth st = 0 ->
+    ends_block (ind_count (S d)) rest ->
+    (ch = [] -> cli = 0) ->
+    exists st', sloop f (ind_count (S d)) cli [] acc dups st = POk (rev acc ++ ch) st' /\ ptoks st' = rest /\ sext st st'.
+Proof.
+  induction ch as [|c cs IHl]; intros HP Hcore Hnum d f cli acc dups st ts rest Hf Hts Hst Hdep Hend Hcli.
+  - inversion Hts; subst ts. cbn [app] in Hst. destruct rest as [|t r]; [destruct Hend|].
+    cbn [lsz2] in Hf. destruct f as [|f]; [lia|]. rewrite (Hcli eq_refl).
+    rewrite sloop_eq. cbv zeta. cbn [ends_block] in Hend. unfold ends_blockb in Hend.
+    repeat rewrite (is_hd _ _ _ _ Hst). rewrite (cur_hd _ _ _ Hst).
+    assert (H0 : (0 <? ind_count (S d)) = true) by (apply N.ltb_lt; unfold ind_count; lia).
+    rewrite H0.
+    destruct (tk t); cbn in Hend |- *; rewrite ?app_nil_r; try discriminate Hend;
+      rewrite ?Bool.orb_false_r in Hend; rewrite ?Hend; eexists; (split; [reflexivity|split; [exact Hst|apply sext_refl]]).
+  - inversion HP as [|? ? HPc HPcs]; subst.
+    cbn [forallb] in Hcore. apply andb_prop in Hcore. destruct Hcore as [Hcc Hccs].
+    destruct Hnum as [Hnc Hncs].
+    cbn [nodes_sh2 flat_map] in Hts. apply Forall2_app_inv_r in Hts.
+    destruct Hts as (ts1 & ts2 & Hts1 & Hts2 & ->).
+    unfold node_sh2 in Hts1. apply Forall2_app_inv_r in Hts1. destruct Hts1 as (tl & ts1' & Htl & Hts1' & ->).
+    cbn [indent_sh app] in Hts1'. inversion Hts1' as [|tI ? tm ? [HIk HIv] Htm]; subst. cbn [fst snd] in HIk, HIv.
+    destruct (main_first c (S d) Hcc) as (s0 & body & Emain & Hs0). pose proof Htm as Htm'. rewrite Emain in Htm'.
+    inversion Htm' as [|tb ? tm' ? [Hbk _] _]; subst. clear Htm'.
+    cbn [lsz2] in Hf.
+    replace f with (3 * length (lead_of c) + (f - 3 * length (lead_of c)))%nat by lia.
+    remember (f - 3 * length (lead_of c))%nat as f1 eqn:Ef1.
+    assert (Hf1 : (3 + sz2 c + lsz2 cs <= f1)%nat) by lia. clear Ef1 Hf.
+    rewrite <- !app_assoc in Hst. rewrite <- app_comm_cons in Hst.
+    destruct (sloop_lead d (lead_of c) [] cli f1 acc dups st tl (tI :: (tb :: tm') ++ ts2 ++ rest) Htl Hst) as (sta & cla & Ea & Hpa & Wa);
+      [discriminate|].
+    rewrite Ea. cbn [app] in Hpa |- *. clear Ea.
+    pose proof (sext_depth0 _ _ Wa Hdep) as Hda.
+    (* the INDENT of the header line *)
+    destruct f1 as [|f1]; [lia|]. rewrite sloop_eq. cbv zeta.
+    is_step Hpa HIk. rewrite (cur_hd _ _ _ Hpa).
+    assert (HIc : count_of tI = ind_count (S d)) by (unfold count_of; rewrite HIv; reflexivity). rewrite !HIc. rewrite N.ltb_irrefl.
+    pose proof (adv_toks _ _ _ _ Hpa) as H1.
+    (* the child *)
+    destruct f1 as [|f1]; [lia|].
+    pose proof (ends_after_child d cs ts2 rest Hts2 Hend) as Hend'.
+    assert (Hd1 : pbdepth (adv sta) = 0) by (rewrite adv_depth; exact Hda).
+    destruct (HPc Hcc Hnc (S d) f1 (lead_of c) (adv sta) (tb :: tm') (ts2 ++ rest)) as (st1 & tail & Hp & Hst1 & Htail & W1);
+      [lia|exact Htm|rewrite <- app_comm_cons; exact H1|exact Hd1|exact Hend'|].
+    rewrite set_lead_id in Hp.
+    rewrite sloop_eq. cbv zeta.
+    assert (HK : tkind_eqb (tk tb) EOF = false /\ tkind_eqb (tk tb) ENVELOPE_END = false /\ tkind_eqb (tk tb) INDENT = false /\
+                 tkind_eqb (tk tb) COMMENT = false /\ tkind_eqb (tk tb) NEWLINE = false).
+    { cbn [fst] in Hbk. destruct Hs0 as [E|E]; rewrite E in Hbk; rewrite Hbk; repeat split. }
+    repeat rewrite (is_hd _ _ _ _ H1). rewrite N.ltb_irrefl, Bool.andb_false_r. destruct HK as (-> & -> & -> & -> & ->). cbn [orb].
+    rewrite Hp. cbn [bind].
+    (* after the child *)
+    set (dl := match node_key_line c (tline (cur (adv sta))) with Some (k, l) => track_dup k l dups st1 | None => (dups, st1) end).
+    assert (Hdl : ptoks (snd dl) = tail ++ ts2 ++ rest).
+    { subst dl. destruct (node_key_line c _) as [[k l]|]; [rewrite track_dup_toks|]; exact Hst1. }
+    assert (Wdl : sext st (snd dl)).
+    { eapply sext_trans; [exact Wa|]. eapply sext_trans; [apply sext_adv|]. eapply sext_trans; [exact W1|].
+      subst dl. destruct (node_key_line c _) as [[k l]|]; [apply sext_track_dup|apply sext_refl]. }
+    destruct dl as [dups' st2] eqn:Edl. cbn [snd] in Hdl, Wdl.
+    pose proof (sext_depth0 _ _ Wdl Hdep) as Hd2.
+    assert (Hrest : exists t0 r0, ts2 ++ rest = t0 :: r0).
+    { destruct rest as [|t0 r0]; [destruct Hend|]. destruct ts2; cbn [app]; eauto. }
+    destruct c as [k v lead tr|k tg chn lead|i k a chn lead|]; cbn [core2_node] in Hcc; try discriminate Hcc.
+    + (* assignment: one more iteration for its NEWLINE *)
+      destruct Htail as (tn & -> & Htn). cbn [app] in Hdl.
+      destruct Hrest as (t0 & r0 & Hr). rewrite Hr in Hdl.
+      destruct f1 as [|f1]; [cbn [sz2] in Hf1; lia|]. rewrite sloop_eq. cbv zeta. is_step Hdl Htn.
+      pose proof (adv_toks _ _ _ _ Hdl) as H2. rewrite <- Hr in H2.
+      destruct (IHl HPcs Hccs Hncs d f1 0 (NAssign k v lead tr :: acc) dups' (adv st2) ts2 rest) as (st' & Hl & Hst' & W');
+        [cbn [sz2] in Hf1; lia|exact Hts2|exact H2|rewrite adv_depth; exact Hd2|exact Hend|reflexivity|].
+      exists st'. split; [|split; [exact Hst'|eapply sext_trans; [exact Wdl|eapply sext_trans; [apply sext_adv|exact W']]]].
+      rewrite Hl. cbn [rev]. rewrite <- app_assoc. reflexivity.
+    + cbn [tail_ok] in Htail. subst tail. cbn [app] in Hdl.
+      destruct (IHl HPcs Hccs Hncs d f1 0 (NBlock k tg chn lead :: acc) dups' st2 ts2 rest) as (st' & Hl & Hst' & W');
+        [lia|exact Hts2|exact Hdl|exact Hd2|exact Hend|reflexivity|].
+      exists st'. split; [|split; [exact Hst'|eapply sext_trans; [exact Wdl|exact W']]].
+      rewrite Hl. cbn [rev]. rewrite <- app_assoc. reflexivity.
+    + cbn [tail_ok] in Htail. subst tail. cbn [app] in Hdl.
+      destruct (IHl HPcs Hccs Hncs d f1 0 (NSection i k a chn lead :: acc) dups' st2 ts2 rest) as (st' & Hl & Hst' & W');
+        [lia|exact Hts2|exact Hdl|exact Hd2|exact Hend|reflexivity|].
+      exists st'. split; [|split; [exact Hst'|eapply sext_trans; [exact Wdl|exact W']]].
+      rewrite Hl. cbn [rev]. rewrite <- app_assoc. reflexivity.
+Qed.
+
+Lemma first_indent D c cs tsc :
+  Forall2 tmatch tsc (nodes_sh2 ml idnum (S D) (c :: cs)) ->
+  exists tI r0, tsc = tI :: r0 /\ tk tI = INDENT /\ count_of tI = ind_count (S D).
+Proof.
+  intros Hb3. cbn [nodes_sh2 flat_map] in Hb3. apply Forall2_app_inv_r in Hb3. destruct Hb3 as (u1 & u2 & Hu1 & _ & ->).
+  destruct (node_sh2_first D c) as (body & Hsh). rewrite Hsh in Hu1.
+  inversion Hu1 as [|tI ? r1 ? [HIk HIv] _]; subst. cbn [fst snd] in HIk, HIv.
+  exists tI, (r1 ++ u2). split; [reflexivity|]. split; [exact HIk|]. unfold count_of. rewrite HIv. reflexivity.
+Qed.
+
+Lemma P_assign k v l t : P_node2 (NAssign k v l t).
+Proof.
+  unfold P_node2. intros Hcore Hnum D f leading st ts rest Hf Hts Hst Hdep _.
+  cbn [core2_node] in Hcore. apply andb_prop in Hcore. destruct Hcore as [Hc Ht].
+  cbn [sz2] in Hf. destruct f as [|f]; [lia|]. cbn [nums_ok2] in Hnum.
+  destruct (psec_assign2 f leading st ts rest k v l t D Hc Hnum Ht Hts Hst Hdep) as (st' & tn & Hp & Hp' & Hn & W).
+  exists st', [tn]. split; [exact Hp|]. split; [exact Hp'|]. split; [|exact W]. exists tn. split; [reflexivity|exact Hn].
+Qed.
+
+Lemma P_block k tg ch l : Forall P_node2 ch -> P_node2 (NBlock k tg ch l).
+Proof.
+  unfold P_node2 at 2. intros IH Hcore Hnum D f leading st ts rest Hf Hts Hst Hdep Hend.
+  cbn [core2_node] in Hcore. destruct tg; [discriminate|].
+  apply andb_prop in Hcore. destruct Hcore as [Hne Hcc].
+  rewrite nums_ok2_block in Hnum. rewrite sz2_block in Hf.
+  rewrite main_sh_block in Hts. cbn [app] in Hts.
+  inversion Hts as [|ti ? ? ? [Hik Hiv] Hb1]; subst. inversion Hb1 as [|tb ? ? ? [Hbk _] Hb2]; subst.
+  inversion Hb2 as [|tn ? tsc ? [Hnk _] Hb3]; subst. cbn [fst snd] in Hik, Hiv, Hbk, Hnk.
+  rewrite <- !app_comm_cons in Hst.
+  destruct ch as [|c cs]; [discriminate Hne|].
+  destruct (first_indent D c cs tsc Hb3) as (tI & r0 & Etsc & HIk & HIc).
+  pose proof (adv_toks _ _ _ _ Hst) as H1. pose proof (adv_toks _ _ _ _ H1) as H2.
+  destruct f as [|f]; [lia|].
+  rewrite psec_block_eq.
+  2:{ rewrite (is_hd _ _ _ _ Hst), Hik. reflexivity. }
+  2:{ rewrite (is_hd _ _ _ _ Hst), Hik. reflexivity. }
+  2:{ rewrite (is_hd _ _ _ _ H1), Hbk. reflexivity. }
+  2:{ rewrite (is_hd _ _ _ _ H1), Hbk. reflexivity. }
+  2:{ rewrite (is_hd _ _ _ _ H1), Hbk. reflexivity. }
+  2:{ rewrite (is_hd _ _ _ _ H1), Hbk. reflexivity. }
+  cbv zeta. is_step H2 Hnk.
+  rewrite (cur_hd _ _ _ Hst). assert (Hk : text_of ti = k) by (unfold text_of; rewrite Hiv; reflexivity). rewrite Hk.
+  assert (H2' : ptoks (adv (adv st)) = tn :: tI :: r0 ++ rest) by (rewrite H2, Etsc; reflexivity).
+  rewrite (fuel_of_toks _ _ H2'). cbn [length].
+  rewrite (skip_nl_step _ _ _ _ _ _ H2'); [|rewrite Hnk; reflexivity|rewrite Hnk; discriminate].
+  pose proof (adv_toks _ _ _ _ H2') as H3.
+  rewrite (skip_stop _ _ _ _ _ H3); [|rewrite HIk; reflexivity].
+  is_step H3 HIk. rewrite (cur_hd _ _ _ H3), HIc.
+  assert (Hfold : bloop f (ind_count (S D)) (ind_count (S D)) [] [] [] (adv (adv (adv (adv st)))) =
+                  bloop (S f) (ind_count (S D)) (ind_count (S D)) [] [] [] (adv (adv (adv st)))).
+  { rewrite bloop_eq. cbv zeta. is_step H3 HIk. rewrite (cur_hd _ _ _ H3), HIc, N.ltb_irrefl. reflexivity. }
+  rewrite Hfold.
+  destruct (bloop_children2 (c :: cs) IH Hcc Hnum D (S f) (ind_count (S D)) [] [] (adv (adv (adv st))) tsc rest)
+    as (st' & Hl & Hst' & W'); [lia|exact Hb3|rewrite H3, Etsc; reflexivity|rewrite !adv_depth; exact Hdep|exact Hend|discriminate|].
+  rewrite Hl. cbn [bind rev app set_lead].
+  exists st', []. split; [reflexivity|]. split; [exact Hst'|]. split; [reflexivity|].
+  eapply sext_trans; [|exact W']. sadv.
+Qed.
+
+(* ---- section markers ------------------------------------------------------------------------------------------------------ *)
+Lemma annot_read a st ts tn r :
+  Forall2 tmatch ts (annot_sh a) -> ptoks st = ts ++ tn :: r -> tk tn = NEWLINE -> r <> [] ->
+  exists st', consume_annotation true st = POk a st' /\ ptoks st' = tn :: r /\ sext st st'.
+Proof.
+  intros Hts Hst Hn Hr. unfold consume_annotation. destruct a as [x|]; cbn [annot_sh] in Hts.
+  - inversion Hts as [|tL ? ? ? [HLk _] Hts1]; subst. inversion Hts1 as [|tX ? ? ? [HXk HXv] Hts2]; subst.
+    inversion Hts2 as [|tR ? ? ? [HRk _] Hts3]; subst. inversion Hts3; subst. cbn [fst snd] in HLk, HXk, HXv, HRk.
+    cbn [app] in Hst. is_step Hst HLk.
+    pose proof (adv_toks _ _ _ _ Hst) as H1. pose proof (adv_toks _ _ _ _ H1) as H2.
+    destruct r as [|t0 r0]; [congruence|]. pose proof (adv_toks _ _ _ _ H2) as H3.
+    rewrite (fuel_of_toks _ _ Hst). cbn [length].
+    cbn [capture_brackets]. change (0 <? 1) with true. is_step H1 HXk. unfold ck. rewrite (cur_hd _ _ _ H1), HXk.
+    cbn [tkind_eqb tkind_code N.eqb Pos.eqb kin existsb orb]. unfold tok_to_str. rewrite HXk, HXv.
+    cbn [capture_brackets]. change (0 <? 1) with true. is_step H2 HRk. unfold ck. rewrite (cur_hd _ _ _ H2), HRk.
+    cbn [tkind_eqb tkind_code N.eqb Pos.eqb kin existsb orb]. change (1 - 1) with 0. change (0 <? 0) with false. cbv iota.
+    cbn [capture_brackets]. change (0 <? 0) with false. cbn [andb bind rev app concat]. rewrite app_nil_r.
+    eexists. split; [reflexivity|]. split; [exact H3|]. sadv.
+  - inversion Hts; subst. cbn [app] in Hst. is_step Hst Hn. exists st. split; [reflexivity|]. split; [exact Hst|apply sext_refl].
+Qed.
+
+Lemma sid_read i st tid ta r :
+  ptoks st = tid :: ta :: r -> tmatch tid (id_sh idnum i) -> tk ta = ASSIGN -> id_ok i ->
+  (if is NUMBER st then
+     match tv (cur st) with
+     | TVNum raw =>
+         match numcanon raw with
+         | Some (_, c) =>
+             if is IDENTIFIER (adv st) then
+               match text_of (cur (adv st)) with
+               | [x] => if alpha x then POk (c ++ [x]) (adv (adv st)) else POk c (adv st)
+               | _ => POk c (adv st)
+               end
+             else POk c (adv st)
+         | None => POut 5
+         end
+     | _ => POut 5
+     end
+   else if is IDENTIFIER st then POk (text_of (cur st)) (adv st)
+   else err_at e006p (cur st)) = POk i (adv st).
+Proof.
+  intros Hst [Hk Hv] Ha Hid. unfold id_sh in Hk, Hv. unfold id_ok in Hid.
+  pose proof (adv_toks _ _ _ _ Hst) as H1.
+  destruct (idnum i); cbn [fst snd] in Hk, Hv.
+  - destruct (Hid eq_refl) as (isf & Hnc). is_step Hst Hk. rewrite (cur_hd _ _ _ Hst), Hv, Hnc.
+    is_step H1 Ha. reflexivity.
+  - is_step Hst Hk. rewrite (cur_hd _ _ _ Hst). unfold text_of. rewrite Hv. reflexivity.
+Qed.
+
+Lemma P_section i k a ch l : Forall P_node2 ch -> P_node2 (NSection i k a ch l).
+Proof.
+  unfold P_node2 at 2. intros IH Hcore Hnum D f leading st ts rest Hf Hts Hst Hdep Hend.
+  cbn [core2_node] in Hcore. apply andb_prop in Hcore. destruct Hcore as [Han Hcore].
+  apply andb_prop in Hcore. destruct Hcore as [Hne Hcc].
+  rewrite nums_ok2_section in Hnum. destruct Hnum as [Hid Hnum]. rewrite sz2_section in Hf.
+  rewrite main_sh_section in Hts. cbn [app] in Hts.
+  inversion Hts as [|tS ? ? ? [HSk _] Hb1]; subst. inversion Hb1 as [|tid ? ? ? Hidm Hb2]; subst.
+  inversion Hb2 as [|ta ? ? ? [Hak _] Hb3]; subst. inversion Hb3 as [|tkey ? ts4 ? [Hkk Hkv] Hb4]; subst.
+  cbn [fst snd] in HSk, Hak, Hkk, Hkv.
+  apply Forall2_app_inv_r in Hb4. destruct Hb4 as (tsa & ts5 & Htsa & Hb5 & ->).
+  inversion Hb5 as [|tn ? tsc ? [Hnk _] Hb6]; subst. cbn [fst] in Hnk.
+  destruct ch as [|c cs]; [discriminate Hne|].
+  destruct (first_indent D c cs tsc Hb6) as (tI & r0 & Etsc & HIk & HIc).
+  rewrite <- !app_comm_cons in Hst. rewrite <- app_assoc in Hst. rewrite <- app_comm_cons in Hst. rewrite Etsc in Hst.
+  rewrite <- app_comm_cons in Hst.
+  assert (Hne4 : exists t4 r4, tsa ++ tn :: tI :: r0 ++ rest = t4 :: r4) by (destruct tsa; cbn [app]; eauto).
+  destruct Hne4 as (t4 & r4 & E4). rewrite E4 in Hst.
+  pose proof (adv_toks _ _ _ _ Hst) as H1. pose proof (adv_toks _ _ _ _ H1) as H2. pose proof (adv_toks _ _ _ _ H2) as H3.
+  pose proof (adv_toks _ _ _ _ H3) as H4. rewrite <- E4 in H4.
+  destruct f as [|[|f]]; try lia.
+  rewrite psec_section_eq; [|rewrite (is_hd _ _ _ _ Hst), HSk; reflexivity].
+  rewrite pmark_eq. cbv zeta.
+  rewrite (sid_read i (adv st) tid ta _ H1 Hidm Hak Hid). cbn [bind].
+  is_step H2 Hak. is_step H3 Hkk. rewrite (cur_hd _ _ _ H3).
+  assert (Hk : text_of tkey = k) by (unfold text_of; rewrite Hkv; reflexivity). rewrite Hk. cbn [bind].
+  destruct (annot_read a (adv (adv (adv (adv st)))) tsa tn (tI :: r0 ++ rest) Htsa H4 Hnk) as (st5 & Han5 & Hp5 & W5); [discriminate|].
+  rewrite Han5. cbn [bind].
+  rewrite (skip_one_nl [NEWLINE] _ _ _ _ (fuel_of st5) Hp5 Hnk eq_refl); [|rewrite HIk; reflexivity|rewrite (fuel_of_toks _ _ Hp5); cbn [length]; lia].
+  pose proof (adv_toks _ _ _ _ Hp5) as H6.
+  rewrite (fuel_of_toks _ _ H6). cbn [length collect_pre]. is_step H6 HIk. cbn [rev].
+  is_step H6 HIk. rewrite (cur_hd _ _ _ H6), HIc.
+  assert (Hfold : sloop f (ind_count (S D)) (ind_count (S D)) [] [] [] (adv (adv st5)) =
+                  sloop (S f) (ind_count (S D)) (ind_count (S D)) [] [] [] (adv st5)).
+  { rewrite sloop_eq. cbv zeta. is_step H6 HIk. rewrite (cur_hd _ _ _ H6), HIc, N.ltb_irrefl. reflexivity. }
+  rewrite Hfold.
+  assert (W6 : sext st (adv st5)) by (eapply sext_trans; [|apply sext_adv]; eapply sext_trans; [|exact W5]; sadv).
+  destruct (sloop_children2 (c :: cs) IH Hcc Hnum D (S f) (ind_count (S D)) [] [] (adv st5) tsc rest)
+    as (st' & Hl & Hst' & W'); [lia|exact Hb6|rewrite H6, Etsc; reflexivity|exact (sext_depth0 _ _ W6 Hdep)|exact Hend|discriminate|].
+  rewrite Hl. cbn [bind rev app set_lead].
+  exists st', []. split; [destruct leading; reflexivity|]. split; [exact Hst'|]. split; [reflexivity|].
+  eapply sext_trans; [exact W6|exact W'].
+Qed.
+
+Theorem all_P_node2 : forall n, P_node2 n.
+Proof.
+  apply node_ind2.
+  - apply P_assign.
+  - apply P_block.
+  - apply P_section.
+  - intros t Hcore; discriminate Hcore.
+Qed.
+
 End Core2.
